@@ -41,74 +41,6 @@ Proof.
   - induction HS as [|p n c HS IH Hp Hin]; [constructor|]. rewrite <- (Hsame p HS) in Hp. econstructor; eauto.
 Qed.
 
-Section Indep.
-Variable T : tables.
-Variable tab_el tab_en : nametab.
-Variable check_fn : N -> list N -> res bool.
-Variable LATEST name_index name_definition_ref : N.
-Variable root_attrs : list (N * cdata).
-
-Notation run := (run_op T tab_el tab_en check_fn LATEST root_attrs).
-Notation run_ops := (Inv.run_ops T tab_el tab_en check_fn LATEST root_attrs).
-
-Section Region.
-Variable P : id -> Prop.
-Variable PM : N -> Prop.
-Variable PF : N -> Prop.
-Notation irp := (irp P PM PF).
-Notation irpq := (irpq P PM PF).
-
-Lemma irp_welem c : irpq (fun i => ~ P i) c -> irp (welem c).
-Proof. intros H. unfold welem. eapply irpq_bind; [exact H|]. intros a _. apply irpq_ret. exact I. Qed.
-Lemma irp_wunit c : irp c -> irp (wunit c).
-Proof. intros H. unfold wunit. eapply irpq_bind; [exact H|]. intros a _. apply irpq_ret. exact I. Qed.
-
-Theorem irp_run_op o : op_apart P PM o -> irp (run o).
-Proof.
-  intros (Hh & Hm).
-  destruct o; cbn [op_handles op_models] in Hh, Hm; cbn [run_op];
-    try (assert (Hh1 : ~ P h) by (apply Hh; left; reflexivity)).
-  - apply irp_welem. apply irpq_e_create_sub; assumption.
-  - apply irp_welem. apply irpq_e_create_sub_at; assumption.
-  - apply irp_welem. apply irpq_e_create_named; assumption.
-  - apply irp_welem. apply irpq_e_create_named_at; assumption.
-  - apply irp_welem. apply irpq_e_copy; assumption.
-  - apply irp_welem. apply irpq_e_copy_at; assumption.
-  - apply irp_welem. apply irpq_e_move; [assumption|]. apply Hh. right. left. reflexivity.
-  - apply irp_welem. apply irpq_e_move_at; [assumption|]. apply Hh. right. left. reflexivity.
-  - apply irp_wunit. apply irp_e_remove; assumption.
-  - apply irp_wunit. apply irp_e_remove_kind; assumption.
-  - apply irp_wunit. apply irp_set_item_name; assumption.
-  - apply irp_wunit. apply irp_e_set_cdata; assumption.
-  - apply irp_wunit. apply irp_e_remove_cdata; assumption.
-  - apply irp_wunit. apply irp_e_insert_citem; assumption.
-  - apply irp_wunit. apply irp_e_remove_citem; assumption.
-  - apply irp_wunit. apply irp_e_set_reference_target; assumption.
-  - apply irp_wunit. apply irp_e_set_attribute; assumption.
-  - eapply irpq_bind; [apply irp_e_remove_attribute; assumption|]. intros a _. apply irpq_ret. exact I.
-  - apply irp_wunit. apply irp_e_set_comment; assumption.
-  - apply irp_welem. apply irpq_e_get_or_create; assumption.
-  - apply irp_welem. apply irpq_e_get_or_create_named; assumption.
-  - eapply irpq_bind; [apply irpq_new_model|]. intros a _. apply irpq_ret. exact I.
-  - eapply irpq_bind; [apply irpq_create_file; apply Hm; left; reflexivity|]. intros a _. apply irpq_ret. exact I.
-  - apply irp_wunit. apply irp_remove_file. apply Hm. left. reflexivity.
-  - apply irp_wunit. apply irp_add_to_file; assumption.
-  - apply irp_wunit. apply irp_remove_from_file; assumption.
-Qed.
-
-Theorem independent_history l : forall w w',
-  Sealed P PM PF w -> Forall (op_apart P PM) l -> run_ops l w = Val w' -> Sealed P PM PF w' /\ Same P PM PF w w'.
-Proof.
-  induction l as [|o l IH]; intros w w' S HF H; cbn [Inv.run_ops] in H.
-  - injection H as <-. split; [exact S|apply Same_refl].
-  - inversion HF as [|? ? Ho Hl]; subst. unfold Inv.run in H.
-    destruct (run o w) as [[r w1]| |] eqn:E; try discriminate H.
-    destruct (irp_run_op o Ho _ _ _ S E) as (S1 & Sm1 & _).
-    destruct (IH _ _ S1 Hl H) as (S2 & Sm2). split; [exact S2|eapply Same_trans; eauto].
-Qed.
-
-End Region.
-
 (* ------------------------------------------------------------------ one model of a well-formed world *)
 (* the index maps of the models other than b mention no node of the region P *)
 Definition IndexApart (w : world) (P : id -> Prop) (b : N) : Prop :=
@@ -191,6 +123,74 @@ Proof.
   intros Hb (Hn & Hm & Hf). split; [rewrite (Hm b eq_refl); exact Hb|]. split; [exact Hf|].
   split; [exact Hn|apply Sub_same; exact Hn].
 Qed.
+
+Section Indep.
+Variable T : tables.
+Variable tab_el tab_en : nametab.
+Variable check_fn : N -> list N -> res bool.
+Variable LATEST name_index name_definition_ref : N.
+Variable root_attrs : list (N * cdata).
+
+Notation run := (run_op T tab_el tab_en check_fn LATEST root_attrs).
+Notation run_ops := (Inv.run_ops T tab_el tab_en check_fn LATEST root_attrs).
+
+Section Region.
+Variable P : id -> Prop.
+Variable PM : N -> Prop.
+Variable PF : N -> Prop.
+Notation irp := (irp P PM PF).
+Notation irpq := (irpq P PM PF).
+
+Lemma irp_welem c : irpq (fun i => ~ P i) c -> irp (welem c).
+Proof. intros H. unfold welem. eapply irpq_bind; [exact H|]. intros a _. apply irpq_ret. exact I. Qed.
+Lemma irp_wunit c : irp c -> irp (wunit c).
+Proof. intros H. unfold wunit. eapply irpq_bind; [exact H|]. intros a _. apply irpq_ret. exact I. Qed.
+
+Theorem irp_run_op o : op_apart P PM o -> irp (run o).
+Proof.
+  intros (Hh & Hm).
+  destruct o; cbn [op_handles op_models] in Hh, Hm; cbn [run_op];
+    try (assert (Hh1 : ~ P h) by (apply Hh; left; reflexivity)).
+  - apply irp_welem. apply irpq_e_create_sub; assumption.
+  - apply irp_welem. apply irpq_e_create_sub_at; assumption.
+  - apply irp_welem. apply irpq_e_create_named; assumption.
+  - apply irp_welem. apply irpq_e_create_named_at; assumption.
+  - apply irp_welem. apply irpq_e_copy; assumption.
+  - apply irp_welem. apply irpq_e_copy_at; assumption.
+  - apply irp_welem. apply irpq_e_move; [assumption|]. apply Hh. right. left. reflexivity.
+  - apply irp_welem. apply irpq_e_move_at; [assumption|]. apply Hh. right. left. reflexivity.
+  - apply irp_wunit. apply irp_e_remove; assumption.
+  - apply irp_wunit. apply irp_e_remove_kind; assumption.
+  - apply irp_wunit. apply irp_set_item_name; assumption.
+  - apply irp_wunit. apply irp_e_set_cdata; assumption.
+  - apply irp_wunit. apply irp_e_remove_cdata; assumption.
+  - apply irp_wunit. apply irp_e_insert_citem; assumption.
+  - apply irp_wunit. apply irp_e_remove_citem; assumption.
+  - apply irp_wunit. apply irp_e_set_reference_target; assumption.
+  - apply irp_wunit. apply irp_e_set_attribute; assumption.
+  - eapply irpq_bind; [apply irp_e_remove_attribute; assumption|]. intros a _. apply irpq_ret. exact I.
+  - apply irp_wunit. apply irp_e_set_comment; assumption.
+  - apply irp_welem. apply irpq_e_get_or_create; assumption.
+  - apply irp_welem. apply irpq_e_get_or_create_named; assumption.
+  - eapply irpq_bind; [apply irpq_new_model|]. intros a _. apply irpq_ret. exact I.
+  - eapply irpq_bind; [apply irpq_create_file; apply Hm; left; reflexivity|]. intros a _. apply irpq_ret. exact I.
+  - apply irp_wunit. apply irp_remove_file. apply Hm. left. reflexivity.
+  - apply irp_wunit. apply irp_add_to_file; assumption.
+  - apply irp_wunit. apply irp_remove_from_file; assumption.
+Qed.
+
+Theorem independent_history l : forall w w',
+  Sealed P PM PF w -> Forall (op_apart P PM) l -> run_ops l w = Val w' -> Sealed P PM PF w' /\ Same P PM PF w w'.
+Proof.
+  induction l as [|o l IH]; intros w w' S HF H; cbn [Inv.run_ops] in H.
+  - injection H as <-. split; [exact S|apply Same_refl].
+  - inversion HF as [|? ? Ho Hl]; subst. unfold Inv.run in H.
+    destruct (run o w) as [[r w1]| |] eqn:E; try discriminate H.
+    destruct (irp_run_op o Ho _ _ _ S E) as (S1 & Sm1 & _).
+    destruct (IH _ _ S1 Hl H) as (S2 & Sm2). split; [exact S2|eapply Same_trans; eauto].
+Qed.
+
+End Region.
 
 (* INDEPENDENCE, every operation: an operation none of whose handles lies in the tree of model b, and which does not
    address b by number, leaves b alone: its record (root, file list, index maps), the records of its files, every node
